@@ -284,7 +284,7 @@ def fieldtype_facts(base):
     if strip_at is not None and guard_at is not None and strip_at > guard_at:
         raise Unsupported("fieldtype: clspath is rewritten after the whitelist test")
     import flow.record.whitelist as wl
-    if base.WHITELIST is not wl.WHITELIST:
+    if getattr(base, "WHITELIST", None) is not wl.WHITELIST:
         raise Unsupported("base.WHITELIST is not whitelist.WHITELIST")
     before = guard_at is not None and (resolve_at is None or guard_at < resolve_at)
     return strips_one, before
@@ -896,7 +896,8 @@ def observe_fieldtype(base, obs, notes):
     """fieldtype() on every whitelist entry, its list form, list-of-list form and a battery of non-entries, with importlib,
     getattr and type shadowed -> (strips exactly one list suffix, whitelist decision precedes every resolution attempt)"""
     raw = getattr(obs.orig_ft, "__wrapped__", obs.orig_ft)
-    wl = list(base.WHITELIST)
+    import flow.record.whitelist as wlmod
+    wl = list(wlmod.WHITELIST)
     obs.shadow_resolvers()
     try:
         def run(p):
@@ -1046,12 +1047,14 @@ def gen_names():
     reserved = list(base.RESERVED_FIELDS.items())
     if not all(isinstance(k, str) and isinstance(v, str) for k, v in reserved):
         raise Unsupported("RESERVED_FIELDS is not str -> str")
-    wl = list(base.WHITELIST)
+    import flow.record.whitelist as wlmod
+    wl = list(wlmod.WHITELIST)          # the configuration the property is relative to
     if not all(isinstance(x, str) for x in wl):
         raise Unsupported("WHITELIST holds non-strings")
-    import flow.record.whitelist as wlmod
-    if base.WHITELIST is not wlmod.WHITELIST:
+    if "WHITELIST" in vars(base) and base.WHITELIST is not wlmod.WHITELIST:
         raise Unsupported("base.WHITELIST is not whitelist.WHITELIST")
+    if "WHITELIST" not in vars(base):
+        notes.append("flow.record.base has no WHITELIST alias; fieldtype()'s decision is observed against whitelist.WHITELIST")
     obs = Observer(base)
     try:
         tree, field_re = observe_field_validator(base, obs, notes)
